@@ -13,7 +13,7 @@ use crate::universe::*;
 use epserde::prelude::*;
 use epserde::ser::{Schema, SchemaRow, SchemaWriter, Serialize, SerializeInner, WriteNoStd, WriteWithNames, WriteWithPos, WriterWithPos};
 
-const MAXROWS: usize = 24;
+const MAXROWS: usize = 20;
 
 /// What a row must look like, computed by an independent numeric recorder
 /// (no strings): kind 0 = composite/primitive row of `write`, 1 = PADDING, 2 = zero-copy block.
@@ -91,42 +91,46 @@ fn check_rows(rows: &[SchemaRow], x: &XLog, buf: &[u8], start: usize, end: usize
         }
         i += 1;
     }
-    // tiling on the recorder's depths: children of row i are the following rows of depth d+1 up to the next row of depth <= d
-    let mut i = 0;
-    while i < MAXROWS {
-        if i < n {
-            let d = x.r[i].depth;
-            let mut cursor = rows[i].offset;
-            let mut has_child = false;
-            let mut open = true;
-            let mut j = 0;
-            while j < MAXROWS {
-                if j > i && j < n && open {
-                    if x.r[j].depth <= d { open = false; }
-                    else if x.r[j].depth == d + 1 {
-                        assert!(rows[j].offset == cursor, "C18: children tile their parent without gaps or overlaps");
-                        cursor = rows[j].offset + rows[j].size;
-                        has_child = true;
-                    }
-                }
-                j += 1;
-            }
-            if has_child { assert!(cursor == rows[i].offset + rows[i].size, "C18: children cover their parent exactly"); }
-        }
-        i += 1;
-    }
-    // top-level rows (depth of the first row) tile [start, end)
+    // tiling, one pass with a stack indexed by depth (depth <= MAXDEPTH): when a row opens at depth d
+    // it must start where its previous sibling ended (or at its parent's offset if it is the first
+    // child), and every deeper level that is still open must have been covered exactly.
+    const MAXDEPTH: usize = 8;
     let base = x.r[0].depth;
-    let mut cursor = start;
+    let mut cursor = [0usize; MAXDEPTH]; // next expected offset at each depth
+    let mut endof = [0usize; MAXDEPTH];  // end of the open row at each depth
+    let mut open = [false; MAXDEPTH];    // is a row open at this depth (i.e. may it still get children)?
+    let mut haskid = [false; MAXDEPTH];
+    cursor[0] = start;
     let mut i = 0;
-    while i < MAXROWS {
-        if i < n && x.r[i].depth == base {
-            assert!(rows[i].offset == cursor, "C18: top-level rows tile the stream");
-            cursor = rows[i].offset + rows[i].size;
+    while i <= MAXROWS {
+        if i <= n {
+            // sentinel at i == n: closes everything
+            let d = if i < n { x.r[i].depth - base } else { 0 };
+            assert!(d < MAXDEPTH, "HARNESS: nesting depth within the checker's capacity");
+            // close every open row at depth >= d: its children (if any) must cover it exactly
+            let mut k = MAXDEPTH;
+            while k > 0 {
+                k -= 1;
+                if k >= d && open[k] {
+                    if haskid[k] {
+                        assert!(cursor[k + 1] == endof[k], "C18: children cover their parent exactly");
+                    }
+                    open[k] = false;
+                }
+            }
+            if i < n {
+                assert!(rows[i].offset == cursor[d], "C18: rows tile their parent (and the top level tiles the stream) without gaps or overlaps");
+                if d > 0 { haskid[d - 1] = true; }
+                cursor[d] = rows[i].offset + rows[i].size;
+                endof[d] = rows[i].offset + rows[i].size;
+                open[d] = true;
+                haskid[d] = false;
+                if d + 1 < MAXDEPTH { cursor[d + 1] = rows[i].offset; }
+            }
         }
         i += 1;
     }
-    assert!(cursor == end, "C18: top-level rows cover the whole stream");
+    assert!(cursor[0] == end, "C18: top-level rows cover the whole stream");
 }
 
 /// Inner stream of `x` at start residue PRE, through SchemaWriter and through the plain writer.
